@@ -1046,15 +1046,16 @@ impl EcmaRegexValidator {
     {
       // TODO: convert unicode code point to char
       cp = Some((self.last_int_value as u32).into());
-    } else if force_u_flag
-      && is_lead_surrogate(cp.unwrap().to_i64())
-      && is_trail_surrogate(cp1.unwrap().to_i64())
-    {
-      cp = Some(UnicodeChar::from(combine_surrogate_pair(
-        cp.unwrap().to_i64(),
-        cp1.unwrap().to_i64(),
-      ) as u32));
-      self.advance();
+    } else if let (true, Some(lead), Some(trail)) = (force_u_flag, cp, cp1) {
+      // `cp` / `cp1` are `None` at the end of the pattern (e.g. `(?<a`)
+      if is_lead_surrogate(lead.to_i64()) && is_trail_surrogate(trail.to_i64())
+      {
+        cp = Some(UnicodeChar::from(combine_surrogate_pair(
+          lead.to_i64(),
+          trail.to_i64(),
+        ) as u32));
+        self.advance();
+      }
     }
 
     if let Some(c) = cp {
